@@ -268,7 +268,7 @@ Proof.
     apply Nat.eqb_eq in E. contradiction. }
   assert (same : forall o, bal i (outs_of i o) = - given_back o).
   { intros o. rewrite bal_outs_of, Nat.eqb_refl. reflexivity. }
-  destruct op as [data|w|pid| | |last w quick].
+  destruct op as [data|w|pid| | |last w quick| ].
   - (* PFeed *)
     destruct (l_closed (p_l p)).
     { simpl. repeat split; auto; lia. }
@@ -313,10 +313,10 @@ Proof.
     pose proof (write_event_l (set_l p l1) w) as [L P].
     pose proof (contig_write_event (set_l p l1) w (contig_set_l p l1 C)) as C'.
     destruct (write_event (set_l p l1) w) as [p2 r]. simpl in L, P, C'.
-    assert (Hfin : pinv (mkP (if p_killing p then PS_STOPPED else if quick then PS_BACKOFF else PS_EXITED)
+    assert (Hfin : forall st', pinv (mkP st'
                              0 false (mkL (l_state (p_l p2)) [] None [] None true) false [] true
                              (p_accepted p2) (p_broken p2) (p_envs p2))).
-    { unfold pinv, contig, wf, slot_inv; simpl. repeat split; auto.
+    { intros st'. unfold pinv, contig, wf, slot_inv; simpl. repeat split; auto.
       unfold contig in C'. destruct (p_iclosed p2).
       - exact C'.
       - exists (p_ibuf p2). exact C'. }
@@ -324,27 +324,30 @@ Proof.
     assert (Hraise : pinv p2).
     { unfold pinv; rewrite L, P. repeat split; auto. intros K. rewrite K in Gd. discriminate. }
     destruct r.
-    + split; [exact Hfin|]. rewrite L. simpl. split.
+    + split; [apply Hfin|]. rewrite L. simpl. split.
       * rewrite same. unfold slot at 2. simpl.
         assert (G : given_back (o1 ++ match l_event l1 with Some e => [ORejected (Some e)] | None => [] end)
                     = given_back o1 + slot l1).
         { rewrite given_back_app. unfold slot. destruct (l_event l1); reflexivity. }
         rewrite G. lia.
       * intros j H. apply other. exact H.
-    + split; [exact Hfin|]. rewrite L. simpl. split.
+    + split; [apply Hfin|]. rewrite L. simpl. split.
       * rewrite same. unfold slot at 2. simpl.
         assert (G : given_back (o1 ++ match l_event l1 with Some e => [ORejected (Some e)] | None => [] end)
                     = given_back o1 + slot l1).
         { rewrite given_back_app. unfold slot. destruct (l_event l1); reflexivity. }
         rewrite G. lia.
       * intros j H. apply other. exact H.
-    + split; [exact Hfin|]. rewrite L. simpl. split.
+    + split; [apply Hfin|]. rewrite L. simpl. split.
       * rewrite same. unfold slot at 2. simpl.
         assert (G : given_back (o1 ++ match l_event l1 with Some e => [ORejected (Some e)] | None => [] end)
                     = given_back o1 + slot l1).
         { rewrite given_back_app. unfold slot. destruct (l_event l1); reflexivity. }
         rewrite G. lia.
       * intros j H. apply other. exact H.
+  - (* PStopFail *)
+    destruct (negb (p_pid p =? 0) && match p_state p with PS_RUNNING | PS_STARTING => true | _ => false end);
+      simpl; repeat split; auto; lia.
 Qed.
 
 (* ----------------------------------------------------------- dispatching *)
